@@ -76,6 +76,7 @@ def parse_entry(name):
 def routing(ents):
     """ents: list of [name, dest] (dest = file name or list of file names) -> {(fac, sev): Counter(file)}"""
     r = collections.defaultdict(collections.Counter)
+    ents = ents or []
     eff = collections.OrderedDict()
     for n, v in ents:
         eff[(n.lower(), isinstance(v, list))] = (n, v)     # a repeated key: the later one overrides
@@ -112,6 +113,8 @@ def gen_section(rnd):
 
 
 def render(ents, rnd=None):
+    if ents is None:
+        return CORE         # the file does not mention the logs section at all
     out = ["logs {"]
     for n, v in ents:
         if isinstance(v, list):
@@ -140,12 +143,15 @@ class LogsProfile:
             k = rnd.random()
             if k < 0.55:
                 steps.append({"kind": "reload", "ents": gen_section(rnd), "mode": rnd.choice(["plain", "plain", "burst", "emit-between"])})
+            elif k < 0.62:
+                # the new file has no logs section at all (or an empty one)
+                steps.append({"kind": "reload", "ents": rnd.choice([None, None, []]), "mode": rnd.choice(["plain", "plain", "burst"])})
             elif k < 0.7:
                 prev = [s for s in steps if s["kind"] == "reload"][-1]
                 steps.append({"kind": "reload", "ents": copy.deepcopy(prev["ents"]), "mode": "plain", "same": True})
             elif k < 0.78:
                 prev = [s for s in steps if s["kind"] == "reload"][-1]
-                ents = copy.deepcopy(prev["ents"])
+                ents = copy.deepcopy(prev["ents"]) or []
                 if ents:
                     rnd.shuffle(ents)
                     if rnd.random() < 0.5:
@@ -154,7 +160,7 @@ class LogsProfile:
             elif k < 0.9:
                 # edit in place: same entry names, only the destination(s) of one or two entries change
                 prev = [s for s in steps if s["kind"] == "reload"][-1]
-                ents = copy.deepcopy(prev["ents"])
+                ents = copy.deepcopy(prev["ents"]) or []
                 for _ in range(rnd.choice([1, 1, 2])):
                     if not ents:
                         break
@@ -218,7 +224,7 @@ class LogsProfile:
             cur = first["ents"]
             rt = routing(cur)
             res.extra["entries"] += len(cur)
-            res.extra["entries_ignored"] += sum(1 for n, _ in cur if parse_entry(n) is None)
+            res.extra["entries_ignored"] += sum(1 for n, _ in (cur or []) if parse_entry(n) is None)
             emit_all(rt, "start")
             for si, s in enumerate(steps[1:], 1):
                 adv = plan["adv"][si] if si < len(plan["adv"]) else 0
@@ -258,8 +264,9 @@ class LogsProfile:
                         res.extra["inplace_destination_edits"] = res.extra.get("inplace_destination_edits", 0) + 1
                     cur = s["ents"]
                     rt = routing(cur)
-                    res.extra["entries"] += len(cur)
-                    res.extra["entries_ignored"] += sum(1 for n, _ in cur if parse_entry(n) is None)
+                    res.extra["entries"] += len(cur or [])
+                    res.extra["sections_omitted"] = res.extra.get("sections_omitted", 0) + int(cur is None)
+                    res.extra["entries_ignored"] += sum(1 for n, _ in (cur or []) if parse_entry(n) is None)
                 emit_all(rt, "step %d" % si)
             if not h.dead:
                 h.sig("HUP")
@@ -374,7 +381,7 @@ class LogsProfile:
             if cur["steps"][si]["kind"] != "reload":
                 continue
             j = 0
-            while j < len(cur["steps"][si]["ents"]) and budget[0] > 0:
+            while j < len(cur["steps"][si]["ents"] or []) and budget[0] > 0:
                 c = copy.deepcopy(cur)
                 del c["steps"][si]["ents"][j]
                 budget[0] -= 1
